@@ -133,6 +133,10 @@ type Case struct {
 	Svc  *SvcObs  `json:"svc,omitempty"`
 	Diff *DiffObs `json:"diff,omitempty"`
 	MP   *MPObs   `json:"mp,omitempty"`
+	// the re-indexing tie (rw.go): the payloads MergeProfiles read and the profile it answered, as flat numbers
+	RWPayloads [][]byte   `json:"rwpayloads,omitempty"` // kind rw: the payloads themselves (input)
+	RWIn       [][]uint64 `json:"rwin,omitempty"`
+	RWOut      []uint64   `json:"rwout,omitempty"`
 	// kind hash
 	HA, HB, HH uint64
 }
@@ -721,6 +725,8 @@ func run(c *Case) {
 		fillFnh(c)
 		runMerge(c)
 		runService(c)
+	case "rw":
+		runMergeProfiles(c)
 	default:
 		fillFnh(c)
 		for i := range c.Profs {
@@ -1080,6 +1086,13 @@ func main() {
 		default:
 			c = genE2E(r, i)
 		}
+		run(&c)
+		out.Put(c)
+	}
+	// kind rw: an own stream derived from the same seed (the stream above stays what it was), a fifth of the run
+	r2 := hx.Rand(f.Seed ^ 0x5bd1e995)
+	for i := 0; i < f.N/5; i++ {
+		c := genRW(r2, f.N+i)
 		run(&c)
 		out.Put(c)
 	}
